@@ -410,13 +410,16 @@ def run(ctx):
             "CoordinateSystem", "ScalarField", "VectorField", "QuantityVector", "volume_element", "Vector("))
     warm = list(modules) if not ctx.quick else sorted({n for n in modules if uses_core(n)} | full)
     warm_only = set(warm) - full - light_only - solver_only          # need the module-alone baseline, get no counter states
+    # use-history stage: EVERY module gets the module-alone pass (it carries the A / B-after-A / B-fresh calls); modules selected for
+    # nothing else get no counter states
+    warm_only |= set(modules) - full - light_only - solver_only
     chosen = sorted(full | light_only | solver_only | warm_only)
     slow = {n for n, o in refm.items() if o.get("import_s", 0) > 2.5}
     base_tasks = [[m, {}] for m in chosen]
     shards = [base_tasks[i::NPROC] for i in range(NPROC)]
     t0 = time.time()
     pass1 = parallel([(lambda k=k, sh=sh: run_worker(ctx, f"alone{k}", {"mode": "fork", "tasks": sh, "calc": True, "argseed": argseed,
-        "srepr": True}, 0)) for k, sh in enumerate(shards) if sh])
+        "srepr": True, "use": True}, 0)) for k, sh in enumerate(shards) if sh])
     alone = {}
     base_ids = {}
     for r in pass1:
@@ -427,6 +430,7 @@ def run(ctx):
         if name in refm:
             for d in compare(refm[name], o):
                 diffs.append(({"tag": "alone", "kind": "module imported alone", "hashseed": 0}, name, *d, o))
+    use_history(ctx, alone, argseed)
     tasks = []
     cap = ctx.pick(10, 32)
     n_lead = ctx.pick(2, 3)
@@ -586,6 +590,39 @@ def run(ctx):
         "text of every public SymPy attribute, every calculate_* result on fixed arguments (rel. tol. 1e-9).")
 
 
+def use_history(ctx, alone, argseed):
+    """The module after it has been USED: in one process every calculate_* was called with argument set A (harvested from the tests),
+    then with B (A rescaled); B was also evaluated in a forked child that had called nothing.  B-after-A must equal B-fresh, and the
+    module's published equations must be what they were before the calls."""
+    n_calls = n_mod = 0
+    for name, o in sorted(alone.items()):
+        u = o.get("use")
+        if not u:
+            continue
+        n_mod += 1
+        short = name.removeprefix("symplyphysics.")
+        for attr, (before, after) in (u.get("published_changed") or {}).items():
+            ctx.violation(f"C03:use-mutates:{short}.{attr}", f"{name}.{attr} is a different object after the module's calculate_* functions have been "
+                f"called: {str(before)[:160]} -> {str(after)[:160]}", {"kind": "violation", "item": f"{name}.{attr}", "observed": after, "expected": before,
+                "call_sequence": [c["sequence"][0] for c in (u.get("calls") or {}).values()], "spec": {"mode": "fork", "tasks": [[name, {}]], "use": True,
+                "hashseed": 0}, "argseed": argseed, "theorem_or_tie": "use-history stage: published objects before / after the calls"}, True)
+        for fn, c in (u.get("calls") or {}).items():
+            n_calls += 1
+            a, b = c.get("B_after_A") or {}, c.get("B_fresh") or {}
+            if "timeout" in a or "timeout" in b or not b:
+                continue
+            a2 = {k: v for k, v in a.items() if k != "s"}
+            b2 = {k: v for k, v in b.items() if k != "s"}
+            if not same_result(a2, b2):
+                ctx.violation(f"C03:use-history:{short}.{fn}", f"{name}.{fn} returns {a2} when called after an earlier call, but {b2} for the same "
+                    f"arguments in a process that has called nothing: {c['sequence']}", {"kind": "violation", "item": f"{name}.{fn}",
+                    "call_sequence": c["sequence"], "observed": a2, "expected": b2, "first_call_result": c.get("A"), "argseed": argseed,
+                    "spec": {"mode": "fork", "tasks": [[name, {}]], "use": True, "hashseed": 0},
+                    "theorem_or_tie": "use-history stage: B after A vs B in a fresh fork"}, True)
+    ctx.coverage["use_history_modules"] = n_mod
+    ctx.coverage["use_history_call_pairs"] = n_calls
+
+
 def replay_spec(h, name):
     if str(h.get("tag", "")).startswith("states") or h.get("tag") == "alone":
         return {"mode": "fork", "tasks": [[name, h.get("counters") or {}]], "warmup": bool(h.get("warmup")), "hashseed": h.get("hashseed", 0)}
@@ -607,6 +644,17 @@ def replay(ctx, rep):
     spec = rep.get("spec")
     if not spec:
         return 1
+    if rep.get("key", "").startswith(("C03:use-history:", "C03:use-mutates:")):
+        mod = spec["tasks"][0][0]
+        r = run_worker(ctx, "replay_use", dict(spec, calc=True, argseed=rep.get("argseed", 0)), 0)
+        o = (r.get("modules", {}).get(mod) or [{}])[0]
+        n0 = len(ctx.violations)
+        use_history(ctx, {mod: o}, rep.get("argseed", 0))
+        for v in ctx.violations[n0:]:
+            print("REPRODUCED", v.key, "--", v.what[:400])
+        if len(ctx.violations) == n0:
+            print("not reproduced on this tree")
+        return 1 if len(ctx.violations) > n0 else 0
     name = item if item in sys.modules or item.count(".") < 2 else item
     mod = name
     if rep["key"].startswith(("C03:calc:", "C03:meaning:")):
